@@ -135,8 +135,17 @@ func runC06(c *core.Ctx) {
 	specX := gen.RandAnyStore(r)
 	rx := r.Fork()
 	seedX := rx.U64()
+	// X is built twice from the same seed and the same budget state, so that X1 and X2 are identical
+	bud := caseBudget(c)
+	before3 := *bud
 	X1 := buildSource(c, rng.New(seedX), "X1", exact, m, specX, 30)
+	after3 := *bud
+	*bud = before3
 	X2 := buildSource(c, rng.New(seedX), "X2", exact, m, specX, 30)
+	*bud = after3
+	if X1 != nil {
+		bud.Charge(X1.mdl.Total()) // two live copies
+	}
 	if X1 == nil || X2 == nil {
 		return
 	}
